@@ -49,7 +49,7 @@ class RetainingMap(dict):
 
 
 def scenario(dA, dB, dC, dur, lifeA, failmask, prio_idx, p1, q1, *, nthreads=3, b_callers=2, cancel_who=-1, cancel_at=0,
-             use_timeout=False, custom_map=False, p2=0, q2=0, trace=False):
+             use_timeout=False, custom_map=False, p2=0, q2=0, trace=False, a_callers=1):
     """returns record dict (callers, inv, stops, result, now)"""
     refuel()
     nthreads = int(nthreads)
@@ -116,7 +116,7 @@ def scenario(dA, dB, dC, dur, lifeA, failmask, prio_idx, p1, q1, *, nthreads=3, 
     LA = loops[0]
     outs = [dict() for _ in loops]
     cancelled_by_harness = set()
-    names = ['A', 'B1'] + (['B2'] if b_callers == 2 else []) + (['C'] if nthreads == 3 else [])
+    names = ['A', 'B1'] + (['B2'] if b_callers == 2 else []) + (['C'] if nthreads == 3 else []) + (['A2'] if a_callers == 2 else [])
     who = names[cancel_who] if 0 <= cancel_who < len(names) else None
 
     def arm_cancel(name, task):
@@ -137,6 +137,9 @@ def scenario(dA, dB, dC, dur, lifeA, failmask, prio_idx, p1, q1, *, nthreads=3, 
         async def main():
             t = aio.get_running_loop().create_task(call('A', tmo('A')))
             arm_cancel('A', t)
+            if a_callers == 2:     # a second caller on the computing loop, parked on the computation's event
+                t2 = aio.get_running_loop().create_task(call('A2', tmo('A2')))
+                arm_cancel('A2', t2)
             await aio.sleep(dA)
         life = pick(lifeA, 3)
 
@@ -311,10 +314,10 @@ JUDGE = {'C01': judge_c01, 'C05': judge_c05, 'C06': judge_c06}
 
 
 def scen(prop, dA, dB, dC, dur, lifeA, failmask, prio_idx, p1, q1, nthreads=3, b_callers=2, cancel_who=-1, cancel_at=0,
-         use_timeout=False, custom_map=False):
+         use_timeout=False, custom_map=False, a_callers=1):
     global LAST_INFO, RAW
     R = scenario(dA, dB, dC, dur, lifeA, failmask, prio_idx, p1, q1, nthreads=nthreads, b_callers=b_callers, cancel_who=cancel_who,
-                 cancel_at=cancel_at, use_timeout=use_timeout, custom_map=custom_map, trace=not tracing())
+                 cancel_at=cancel_at, use_timeout=use_timeout, custom_map=custom_map, trace=not tracing(), a_callers=a_callers)
     RAW = R
     devs = JUDGE[prop](R)
     if not tracing():
@@ -393,6 +396,13 @@ def cells(prop, tier):
                                 pre=['0 <= lifeA <= 2 and 0 <= cancel_who <= 2 and 0 <= cancel_at <= 4 and 0 <= prio_idx <= 1'],
                                 body='H.scen(%r, %d, %d, %d, %d, lifeA, 0, prio_idx, 0, 0, 2, 2, cancel_who, cancel_at, %r)' % (prop, dA, dB, dC, dur, ut),
                                 tier=q, timeout=600, family=lp, weight=2))
+    if prop in ('C06', 'C05'):
+        # two callers on the computing loop (the second parked on the computation's event) while that loop stops / closes mid-computation
+        for life in range(3):
+            out.append(Cell(name='%s_2t_g1_two_callers_on_A_life%d' % (lp, life), sig='failmask: int, prio_idx: int, p1: int',
+                            pre=['0 <= failmask <= 1 and 0 <= prio_idx <= 1 and 0 <= p1 <= 150'],
+                            body='H.scen(%r, 1, 0, 2, 3, %d, failmask, prio_idx, p1, 0, 2, 1, -1, 0, False, False, 2)' % (prop, life),
+                            tier=q, timeout=900, family=lp, weight=4))
     if prop == 'C06':
         # a caller-supplied mapping that loses entries between two of the wrapper's own operations: never a bookkeeping exception
         out.append(Cell(name='c06_evicting_mapping', sig='a: int, b: int, n: int', pre=['1 <= n <= 14'], body='H.C14.scen_evict_during(a, b, n)',
